@@ -1,4 +1,5 @@
 """C01 — Mendelian fidelity of the seven mating protocols (provenance tracing through tagged founder haplotypes)."""
+import os
 import re
 
 import numpy
@@ -24,6 +25,9 @@ ASSUMPTIONS = [
     "at least one progeny is requested in total (individual crosses may have zero matings/progeny)",
     "starting copy at the first marker is unconstrained (no interval precedes it)",
 ]
+
+THOROUGH = os.environ.get("PBT_TIER") == "thorough"      # larger size bounds in the thorough tier
+MAXN, MAXP, MAXCROSS = (40, 30, 8) if THOROUGH else (12, 14, 5)
 
 # name -> (class, nparent, is_dh, has_mating_level)
 PROTOCOLS = {
@@ -96,13 +100,13 @@ def mate_case(draw):
     prot = draw(st.sampled_from(sorted(PROTOCOLS)))
     npar = PROTOCOLS[prot][1]
     mode = draw(st.sampled_from(["tagged", "tagged", "tagged", "wild"]))
-    n = draw(st.integers(1, 12 if mode == "tagged" else 5))
-    p = draw(st.integers(1, 14))
+    n = draw(st.integers(1, MAXN if mode == "tagged" else 5))
+    p = draw(st.integers(1, MAXP))
     lay = draw(gens.variant_layout(p))
     case = {"prot": prot, "mode": mode, "n": n, "p": p, "lay": lay}
     if mode == "wild":
         case["cells"] = draw(st.lists(st.integers(-128, 127), min_size=1, max_size=2 * n * p))
-    ncross = draw(st.integers(1, 5))
+    ncross = draw(st.integers(1, MAXCROSS))
     style = draw(st.sampled_from(["any", "any", "selfs", "repeat_row", "distinct"]))
     xc = []
     for c in range(ncross):
